@@ -87,10 +87,41 @@ func verifRoot(snap *IndexSnapshot) []VerifSeg {
 
 // verifPoint marks a named step (crash / delay / gate points).
 func verifPoint(s *Scorch, name string, args ...uint64) {
-	if !verifEnabled() {
+	if s == nil || !verifEnabled() {
 		return
 	}
 	verifEmit(&VerifEvent{Kind: "point", Path: s.path, Name: name, Args: args})
+}
+
+// verifPointName marks a named step that concerns a file.
+func verifPointName(s *Scorch, name string, str string) {
+	if s == nil || !verifEnabled() {
+		return
+	}
+	verifEmit(&VerifEvent{Kind: "point", Path: s.path, Name: name, IDs: []string{str}})
+}
+
+// verifPersistPrepared reports the snapshot whose bolt bucket has been filled (not yet committed).
+func verifPersistPrepared(s *Scorch, snap *IndexSnapshot) {
+	if s == nil || !verifEnabled() {
+		return
+	}
+	ev := &VerifEvent{Kind: "persist_prepared", Path: s.path, Epoch: snap.epoch, Root: verifRoot(snap)}
+	for k, v := range snap.internal {
+		if ev.Internal == nil {
+			ev.Internal = map[string][]byte{}
+		}
+		ev.Internal[k] = v
+	}
+	verifEmit(ev)
+}
+
+// verifCopy reports the snapshot an online copy works on (called with rootLock held).
+func verifCopy(s *Scorch, name string, snap *IndexSnapshot) {
+	if s == nil || !verifEnabled() {
+		return
+	}
+	verifEmit(&VerifEvent{Kind: name, Path: s.path, Epoch: snap.epoch, Root: verifRoot(snap)})
 }
 
 func verifIntroduceSegment(s *Scorch, next *segmentIntroduction, snap *IndexSnapshot) {
